@@ -456,7 +456,7 @@ func genHistory(r *hx.Rng, tier string, i int) []hx.Zs {
 	start := len(g.h)
 	for len(g.h) < start+n {
 		p := g.peers[r.Intn(len(g.peers))]
-		switch r.Pick(22, 10, 8, 6, 6, 4, 8, 7, 5, 5, 4, 3, 9) {
+		switch r.Pick(22, 10, 8, 6, 6, 4, 8, 7, 5, 5, 4, 3, 9, 5) {
 		case 0: // subscribe call
 			if !p.connected {
 				break
@@ -675,6 +675,40 @@ func genHistory(r *hx.Rng, tier string, i int) []hx.Zs {
 			}
 		case 12: // a teardown of p overlapped by a registry call of another peer q
 			g.overlap(p)
+		case 13: // a local feature withdraws a request (RemoveRemoteSubscription / RemoveRemoteBinding)
+			if len(g.refs) == 0 {
+				break
+			}
+			rf := g.refs[r.Intn(len(g.refs))]
+			if r.Chance(1, 6) && len(g.tmpl) > 0 && p.connected && p.replied {
+				// a request that was never made (or of the other kind): the delete call is sent all the same
+				f := g.tmpl[r.Intn(len(g.tmpl))]
+				rf = ref{r.Bool(), rf.lf, stack.FAddr{Dev: p.dev + 1, Ent: f.ent, Feat: f.id + 1}}
+			}
+			d := rf.addr.Dev - 1
+			var owner *peerSt
+			for _, q := range g.peers {
+				if q.connected && q.replied && q.dev == d {
+					owner = q
+				}
+			}
+			if owner == nil || g.announcers(d) != 1 {
+				break // only while the address names one connection
+			}
+			key := fmt.Sprint("un", rf.sub, rf.lf.ent, rf.lf.id, rf.addr, owner.ski, g.gen[owner.ski])
+			if g.asked[key] {
+				break // an identical unanswered delete call is withheld by the sender, as for requests
+			}
+			g.asked[key] = true
+			// the request may be made again afterwards: it is a new datagram only if the first one was
+			// answered, which it is not - so the request key stays taken
+			if rf.sub {
+				g.add(stack.OpLocalUnsubscribe(rf.lf.ent, rf.lf.id, rf.addr))
+			} else {
+				g.add(stack.OpLocalUnbind(rf.lf.ent, rf.lf.id, rf.addr))
+			}
+			count("local-requests-withdrawn")
+			g.probe()
 		default: // a late discovery reply
 			if p.connected && !p.replied && (!p.preNM || allowPreNM) {
 				if p.preNM {
